@@ -61,6 +61,20 @@ def qMat (P1i : Matrix N N R) (Q2 : Matrix B B R) (iB : B → N) (iT : T → N) 
 
 /-! ### helper lemmas -/
 
+/-- rows/columns `lo .. lo+len` of an index set of size `n`: the `Range<usize>` of `submat_rows` / `submat_cols` -/
+def rangeMap (lo len n : Nat) (h : lo + len ≤ n) : Fin len → Fin n := fun i => ⟨lo + i.val, by omega⟩
+
+theorem rangeMap_injective (lo len n : Nat) (h : lo + len ≤ n) : Function.Injective (rangeMap lo len n h) := by
+  intro i j hij
+  simp only [rangeMap, Fin.mk.injEq] at hij
+  exact Fin.ext (by omega)
+
+/-- general form of `sub_rows_mul_sub_cols` -/
+theorem sub_rows_mul_sub_cols' {A C L : Type*} [Fintype L] (X : Matrix A L R) (Y : Matrix L C R)
+    {A' C' : Type*} (f : A' → A) (g : C' → C) :
+    X.submatrix f id * Y.submatrix id g = (X * Y).submatrix f g := by
+  ext i j; simp [Matrix.mul_apply]
+
 theorem sub_rows_mul_sub_cols {A : Type*} {C : Type*} (X Y : Matrix N N R) (f : A → N) (g : C → N) :
     X.submatrix f id * Y.submatrix id g = (X * Y).submatrix f g := by
   ext i j; simp [Matrix.mul_apply]
